@@ -528,7 +528,17 @@ def check_unit(ctx, case):
     # ---- cpm on the query rows (raw counts -> CPM), exact vs float
     from cell_type_mapper.cell_by_gene.utils import convert_to_cpm
     raw = np.floor(np.abs(query) * 3.0)
+    # also rows that are not counts: sums strictly between 0 and 1, and empty
+    for c in range(raw.shape[0]):
+        if (case['seed'] + c) % 3 == 0 and raw[c].sum() > 0:
+            raw[c] = raw[c] / raw[c].sum() * [0.7, 0.05, 1e-4][c % 3]
+        elif (case['seed'] + c) % 3 == 1 and c % 2:
+            raw[c] = 0.0
     got = convert_to_cpm(raw)
+    if not np.all(np.isfinite(got)):
+        violation('cpm/not-finite', 'convert_to_cpm returns non-finite values '
+                  'for rows %r' % (raw.tolist(),))
+        return
     for c in range(raw.shape[0]):
         s = raw[c].sum()
         want = raw[c] / (s if s > 0 else 1.0) * 1.0e6
